@@ -209,10 +209,12 @@ VarI(c, r, l) == IF IsTPL(c) THEN VarOfRaw(r, l) ELSE r
 RawM(c, m) == [raw |-> RawI(c, m.var, m.len), len |-> m.len, nug |-> m.nug, opt |-> m.opt, anis |-> m.anis]
 Pub(c, m)  == [var |-> VarI(c, m.raw, m.len), len |-> m.len, nug |-> m.nug, opt |-> m.opt, anis |-> m.anis]
 
-(* _init_curve_fit_para: the box handed to curve_fit (top of var = sill) *)
+(* _init_curve_fit_para: the box handed to curve_fit
+   (top of var = min(sill, upper variance bound) under a prescribed sill) *)
 BoxOf(c, cs, s) ==
   [p \in Params \cup {"anis"} |->
-     [lo |-> c.bnd[p].lo, hi |-> IF p = "var" /\ cs THEN s ELSE c.bnd[p].hi]]
+     [lo |-> c.bnd[p].lo,
+      hi |-> IF p = "var" /\ cs /\ Le(s, c.bnd[p].hi) THEN s ELSE c.bnd[p].hi]]
 
 CErr(c, why) == [st |-> "error", why |-> why, para |-> None, fanis |-> FALSE, cs |-> FALSE,
                  sill |-> c.pre.var, m |-> RawM(c, c.pre), vsave |-> c.pre.var,
@@ -302,18 +304,21 @@ ImplEval(c, pp, m, x) ==
            opt  |-> IF pp.para.opt THEN x.opt ELSE m.opt,
            anis |-> IF pp.fanis THEN x.anis ELSE m.anis]
 
-(* _post_fitting: not fitted entries of the dictionary are READ from the model
-   (variance first), fitted ones are written, the variance last              *)
+(* _post_fitting: var_tmp starts as the current variance of the model and is
+   replaced by the optimum when the variance is fitted; under a prescribed sill
+   the nugget is then assigned sill - var_tmp.  Fitted entries are written, the
+   other entries of the dictionary are read from the model (nugget after the
+   assignment above), and the variance is assigned last in every case.        *)
 ImplPost(c, pp, m, x) ==
-  LET len1 == IF pp.para.len THEN x.len ELSE m.len
-      nug1 == IF pp.para.nug THEN x.nug ELSE m.nug
+  LET vtmp == IF pp.para.var THEN x.var ELSE VarI(c, m.raw, m.len)
+      len1 == IF pp.para.len THEN x.len ELSE m.len
+      nug1 == IF pp.para.nug THEN x.nug
+              ELSE IF pp.para.var /\ pp.cs THEN Minus(pp.sill, x.var) ELSE m.nug
       opt1 == IF pp.para.opt THEN x.opt ELSE m.opt
       ani1 == IF pp.fanis THEN x.anis ELSE m.anis
   IN [st  |-> "ok",
-      m   |-> [raw |-> IF pp.para.var THEN RawI(c, x.var, len1) ELSE m.raw,
-               len |-> len1, nug |-> nug1, opt |-> opt1, anis |-> ani1],
-      ret |-> [var |-> IF pp.para.var THEN x.var ELSE VarI(c, m.raw, m.len),
-               len |-> len1, nug |-> nug1, opt |-> opt1, anis |-> ani1]]
+      m   |-> [raw |-> RawI(c, vtmp, len1), len |-> len1, nug |-> nug1, opt |-> opt1, anis |-> ani1],
+      ret |-> [var |-> vtmp, len |-> len1, nug |-> nug1, opt |-> opt1, anis |-> ani1]]
 
 CEndErr(c) == [st |-> "error", m |-> RawM(c, c.pre), ret |-> c.pre]
 
@@ -447,7 +452,15 @@ LastFinite(s) == LET F == {i \in DOMAIN s : ~Infeasible(cfg, cp, s[i])}
 LastEvalDecides ==
   (phase = "ready" /\ Len(evs) >= 1) => cm = ImplEval(cfg, cp, cp.m, LastFinite(evs))
 
-(* the transcription agrees with the documentation (violated as long as the
-   code deviates; the driver reads `disc` from the dumped end states)         *)
-ImplConforms == disc = {}
+(* The transcription agrees with the documentation, except for the one recorded
+   deviation (known finding error:spurious:TPL:var-bounds): on a TPL model the
+   assignment of a fitted len_scale inside the closure / the post-processing drags
+   the variance along and the bounds are checked before the variance is restored,
+   so a call the documentation admits ends in a ValueError.  Every other
+   discrepancy violates this invariant.                                        *)
+KnownDeviation ==
+  /\ IsTPL(cfg) /\ phase = "done" /\ cp.st = "ready" /\ cend.st = "error"
+  /\ disc = {"error:spurious"}
+  /\ DragRaises(cfg, cp, cm, popt) /\ ~SetterRaises(cfg, cp, popt)
+ImplConforms == disc = {} \/ KnownDeviation
 =============================================================================
